@@ -52,7 +52,10 @@ def scenarios(tier):
     for be in (("mem", "fs+cache-one") if tier != "thorough" else ("mem", "fs", "fs+cache-all", "fs+cache-one")):
         out.append(("%s|cold|batch-vs-call" % be, be, "cold", [[("g", [1, 2])], [("g", 2)]]))
     out.append(("fs+cache-one|store|batch-vs-call", "fs+cache-one", "store", [[("g", [1, 2])], [("g", 2)]]))
+    # three callers of a call whose first attempt ends un-memoized (the waiting threads take over one after the other)
+    out.append(("mem|cold|flaky-3threads", "mem", "cold", [[("flaky", 1)], [("flaky", 1)], [("flaky", 1)]]))
     if tier == "thorough":
+        out.append(("fs|cold|flaky-3threads", "fs", "cold", [[("flaky", 1)], [("flaky", 1)], [("flaky", 1)]]))
         out.append(("fs+cache-all|store|nested-shared", "fs+cache-all", "store", [[("top1", 1)], [("top2", 1)]]))
         out.append(("mem|cold|nested-vs-inner", "mem", "cold", [[("top1", 1)], [("mid", 1)]]))
         out.append(("fs+cache-all|cold|nested-vs-inner", "fs+cache-all", "cold", [[("top1", 1)], [("mid", 1)]]))
@@ -108,6 +111,8 @@ def prepare(scn):
     os.makedirs(root)
     storemc.own_uuids()
     rl._memento_fn_mutex.clear()
+    fx._runs.clear()
+    fx._inside.clear()
     b = make_backend(be, root)
     set_backend(b)
     if warm != "cold":
@@ -184,17 +189,23 @@ SKIP_NAMES = ("_get_metadata_path", "_get_function_path", "_get_path", "_escape_
 
 def files(names):
     import twosigma.memento as m
+    from ..fixtures import c09fx
 
     d = os.path.dirname(m.__file__)
-    return tuple(os.path.join(d, f) for f in names)
+    # the bodies of the fixture functions are traced too: a thread can be preempted inside a body
+    return tuple(os.path.join(d, f) for f in names) + (c09fx.__file__,)
 
 
 def granularity(gran):
     """(line_files, call_files): 'full' = line points in runner + storage code; 'runner' = line points in
     the runner / call-stack code, one point per function call in the storage code."""
+    from ..fixtures import c09fx
+
     if gran == "full":
         return files(RUNNER_FILES + STORAGE_FILES), ()
-    return files(RUNNER_FILES), files(STORAGE_FILES)
+    if gran == "calls":  # line points only inside the function bodies; one point per call into runner / storage code
+        return (c09fx.__file__,), files(RUNNER_FILES + STORAGE_FILES)[:-1]
+    return files(RUNNER_FILES), files(STORAGE_FILES)[:-1]
 
 
 def opcode_codes():
@@ -236,6 +247,27 @@ def provenance(calls):
     return None
 
 
+def flaky_oracle(s, calls, bodies):
+    """n threads call flaky(1), whose first execution raises a not-to-be-memoized exception: exactly one caller sees that
+    exception, the others get the value, the body ran exactly twice and never twice at the same time."""
+    from ..fixtures import c09fx as fx
+
+    if any(b[0] == "OVERLAP" for b in bodies):
+        return ("body-overlap", "two threads were inside the body of flaky(1) at the same time (bodies: %s)" % [b[0] for b in bodies])
+    failed = [i for i, e in enumerate(s.exc) if e is not None]
+    for i in failed:
+        if not isinstance(s.exc[i], fx.Transient):
+            return ("escaped-error", "thread %d: %r escaped to the caller" % (i, s.exc[i]))
+    runs = sum(1 for b in bodies if b[0] == "flaky")
+    if len(failed) != 1 or runs != 2:
+        return ("single-flight", "flaky(1) called by %d threads: %d callers saw the first attempt fail, body ran %d times (expected 1 and 2)"
+                % (len(calls), len(failed), runs))
+    for i, c in enumerate(calls):
+        if i not in failed and s.ret[i] != [fx.expected(fn, arg) for fn, arg in c]:
+            return ("wrong-value", "thread %d got %r" % (i, s.ret[i]))
+    return None
+
+
 def run_once(scn, prefix, opcodes=False, gran="full", prov=False):
     """One execution. Returns (trace, observation token, violation or None)."""
     from .. import audit, sched
@@ -257,6 +289,10 @@ def run_once(scn, prefix, opcodes=False, gran="full", prov=False):
         bad = ("deadlock", "no enabled thread: %s" % (s.status,))
     elif s.livelock:
         bad = ("livelock", "execution exceeded the horizon of %d scheduling points" % s.max_points)
+    elif any(fn == "flaky" for c in calls for fn, _ in c):
+        bad = flaky_oracle(s, calls, bodies)
+        token = "%s|%s|%s" % (name, [repr(r) if e is None else type(e).__name__ for r, e in zip(s.ret, s.exc)], len(bodies))
+        return s.trace, token, bad, s.npoints
     else:
         for i, c in enumerate(calls):
             if s.exc[i] is not None:
@@ -362,10 +398,15 @@ def run(ctx):
         tasks.append((scn, (), b, {"cap": CAP}))  # from the default schedule (bound 0) upwards
     # bound 2 at runner granularity for the cold-store scenarios (single-flight protocol)
     for scn in scns:
-        if scn[2] == "cold" and len(scn[3]) == 2 and (thorough or scn[0] == "fs+cache-one|cold|same"):
+        if scn[2] == "cold" and len(scn[3]) == 2 and "nested" not in scn[0] and (thorough or scn[0] == "fs+cache-one|cold|same"):
             trace, _, _, _ = run_once(scn, (), False, "runner")
             per[scn[0]]["choice_points_runner_granularity"] = len(trace)
             tasks.append((scn, (), 2, {"cap": CAP, "gran": "runner"}))
+    # the hand-over of the per-call mutex between three callers: bound 2 (thorough 3) with one point per call into the
+    # runner / storage code and line points inside the function body
+    for scn in scns:
+        if "flaky" in scn[0]:
+            tasks.append((scn, (), 3 if thorough and scn[1] == "mem" else 2, {"cap": CAP, "gran": "calls"}))
     if thorough:
         # opcode-granularity points inside MemoryCache for the cache scenarios, bound 1
         for scn in scns:
